@@ -649,6 +649,9 @@ func (ex *Exec) assumeSliceWF(s SliceV) {
 	if s.Len.IsConst() && s.Cap.IsConst() && s.Off.IsConst() {
 		return
 	}
+	if traceHyp != "" {
+		fmt.Fprintf(os.Stderr, "WF %s %s noWF=%v\n", s.Len.StringLimit(100), s.Cap.StringLimit(100), ex.noWF)
+	}
 	ex.assumeGlobal(And(Le(Int(0), s.Len), Le(s.Len, s.Cap), Le(s.Cap, IntB(pow48)), Le(Int(0), s.Off),
 		Implies(Eq(s.Arr, Int(0)), And(Eq(s.Cap, Int(0)), Eq(s.Off, Int(0))))))
 }
